@@ -162,9 +162,11 @@ def parseSeq (nres : Nat) : Nat → List FI → PState → Option (List Instr ×
       | none => none
 
 /-- a flat function body (ending with the function's final `end`) as a tree -/
-def parseBody (nres nlocals : Nat) (xs : List FI) : Option (List Instr) :=
+def parseBody (nres nlocals : Nat) (xs : List FI) : Option (List Instr × List Nat) :=
   match parseSeq nres (xs.length + 1) xs { nextFlag := nlocals } with
-  | some (is, .atEnd e, [], _) => if e.noAnn then some is else none
+  | some (is, .atEnd e, [], _) =>
+    -- the function's final `end` may carry `before` probes; nothing else (the encoder drops `after` and alternates there)
+    if e.after.isEmpty && e.semAfter.isEmpty && e.blockEntry.isEmpty && e.blockExit.isEmpty then some (is, e.before) else none
   | _ => none
 
 /-- the tree model reads `return_call` etc. as out of scope -/
@@ -175,7 +177,7 @@ def toTree (f : Lower.Func) (nres : Nat) : Option Sem.Func := do
   let fis ← f.body.mapM FI.ofInstr
   if !(f.body.all (fun i => tokInScope i.tok)) then none
   let body ← parseBody nres f.nlocals fis
-  pure { entry := ← probeIds f.entry, exit := ← probeIds f.exit, nres := nres, body := body }
+  pure { entry := ← probeIds f.entry, exit := ← probeIds f.exit, nres := nres, body := body.1, endBefore := body.2 }
 
 /-! ### flattening -/
 
@@ -221,7 +223,7 @@ def kindOfTok (t : String) : Lower.Kind :=
   | _ => .other
 
 def parseToks (nres : Nat) (ts : List Tok) : Option (List Instr) :=
-  parseBody nres 0 (ts.map fun t => FI.plain t (kindOfTok t))
+  (parseBody nres 0 (ts.map fun t => FI.plain t (kindOfTok t))).map (·.1)
 
 /-- canonical form for comparing two lowerings: inside every maximal run of probes (`i32.const:p, call:0` pairs) the
     probes are sorted — the order of probes that fire at the same moment is constrained by no property -/
